@@ -72,11 +72,48 @@ class Outcome:
         self.timed_out = False
 
 
+class _Watchdog:
+    """SIGALRM interrupts Python code only between bytecodes: a native evaluation stuck inside one C-level loop (e.g.
+    `set(map(sum, itertools.product(...)))` over an astronomically large product) never sees it.  A daemon thread ends the
+    whole check instead of letting it hang: exit code 2 (undecided) with the function and a note - unless the spec module
+    declared what such a hang means for its property (`HANG_VERDICT = (exit code, line to print)`)."""
+    HANG_VERDICT = None
+    current = None
+
+    @classmethod
+    def arm(cls, label, seconds):
+        import threading
+
+        token = object()
+        cls.current = token
+
+        def fire():
+            if cls.current is token:
+                import os
+                import sys
+
+                code, line = cls.HANG_VERDICT or (2, "UNDECIDED: the native evaluation does not return and cannot be interrupted")
+                sys.stdout.write("%s (%s; limit %d s)\n" % (line, label, seconds))
+                sys.stdout.flush()
+                os._exit(code)
+
+        t = threading.Timer(seconds, fire)
+        t.daemon = True
+        t.start()
+        return t
+
+    @classmethod
+    def disarm(cls, t):
+        cls.current = None
+        t.cancel()
+
+
 def _exception_class_only(out: "Outcome", call: Callable[[], Any], base: str, time_limit: int) -> "Outcome":
     """Input outside the contract's precondition: nothing of the contract is claimed, but the property-level exception-class
     clause still is - only subclasses of `base` may leave the call (bounded native evidence, never counted as proof)."""
     old = signal.signal(signal.SIGALRM, _alarm)
     signal.alarm(time_limit)
+    wd = _Watchdog.arm("outside-precondition call", 3 * time_limit + 30)
     try:
         r = call()
         try:
@@ -94,6 +131,7 @@ def _exception_class_only(out: "Outcome", call: Callable[[], Any], base: str, ti
             out.failed_clause = "noraise#%s" % type(e).__name__
             out.detail = "outside the contract's precondition, still: only %s may leave; got %s" % (base, type(e).__name__)
     finally:
+        _Watchdog.disarm(wd)
         signal.alarm(0)
         signal.signal(signal.SIGALRM, old)
     out.trivial = False
@@ -126,6 +164,7 @@ def check_call(contract: Contract, call: Callable[[], Any], ns_args: Dict[str, A
             expected[xname] = bool(cond(ns))
     old = signal.signal(signal.SIGALRM, _alarm)
     signal.alarm(time_limit)
+    wd = _Watchdog.arm(contract.qualname, 3 * time_limit + 30)
     raised = None
     result = None
     try:
@@ -137,6 +176,7 @@ def check_call(contract: Contract, call: Callable[[], Any], ns_args: Dict[str, A
     except BaseException as e:  # noqa
         raised = e
     finally:
+        _Watchdog.disarm(wd)
         signal.alarm(0)
         signal.signal(signal.SIGALRM, old)
     if raised is not None:
